@@ -40,7 +40,10 @@ fn parse_identifiers(input: &str) -> Vec<PreReleaseIdentifier> {
         .split('.')
         .map(|part| {
             if part.chars().all(|c| c.is_ascii_digit()) && (part == "0" || !part.starts_with('0')) {
-                PreReleaseIdentifier::UInt(part.parse().unwrap_or(0))
+                // Digits that do not fit are kept as text instead of being replaced by 0
+                part.parse()
+                    .map(PreReleaseIdentifier::UInt)
+                    .unwrap_or_else(|_| PreReleaseIdentifier::Str(part.to_string()))
             } else {
                 PreReleaseIdentifier::Str(part.to_string())
             }
@@ -99,14 +102,6 @@ impl FromStr for SemVer {
         let mut version = SemVer::new(major, minor, patch);
 
         if let Some(pre_release_match) = captures.name("prerelease") {
-            // A numeric identifier that does not fit must be rejected, not replaced by 0
-            if let Some(part) = pre_release_match.as_str().split('.').find(|part| {
-                part.chars().all(|c| c.is_ascii_digit()) && part.parse::<u64>().is_err()
-            }) {
-                return Err(ZervError::InvalidVersion(format!(
-                    "Pre-release identifier out of range: {part}"
-                )));
-            }
             let pre_release = parse_identifiers(pre_release_match.as_str());
             version = version.with_pre_release(pre_release);
         }
